@@ -41,7 +41,7 @@ def c20(tier):
     vlib.standard("C20", tier, "c20", CRASH_COQ + ["Properties_C20.v"], assume=CRASH_ASSUME, trusted=CRASH_TRUSTED)
 
 
-CRASH_COQ = ["Proofs_Checkers.v"]
+CRASH_COQ = ["Proofs_Checkers.v", "Proofs_Witnesses.v"]
 
 
 def c16(tier):
